@@ -72,36 +72,36 @@ type Violation struct {
 }
 
 type Summary struct {
-	Mode          string                  `json:"mode"`
-	Worker        int                     `json:"worker"`
-	Runs          int64                   `json:"runs"`
-	Calls         int64                   `json:"calls"`
-	Steps         int64                   `json:"steps"`
-	Switches      int64                   `json:"switches"`
-	Faults        simrt.Faults            `json:"faults"`
-	OverlapRuns   int64                   `json:"overlap_runs"`
-	NontrivRuns   int64                   `json:"nontrivial_runs"`
-	HistoryPairs  int64                   `json:"history_pairs"`
-	ColdOverlap   int64                   `json:"cold_overlap"`
-	PanicCalls    int64                   `json:"panic_calls"`
-	Violations    int64                   `json:"violations"`
-	RaceReports   int64                   `json:"race_reports"`
-	SiteHits      []uint32                `json:"site_hits,omitempty"`
-	SyncOps       map[string]int64        `json:"sync_ops"`
-	PolicyRuns    map[string]int64        `json:"policy_runs"`
-	GlobalsBefore uint64                  `json:"globals_before"`
-	GlobalsAfter  uint64                  `json:"globals_after"`
-	GlobalsDiff   []string                `json:"globals_changed,omitempty"`
-	Spawned       int64                   `json:"spawned"`
-	Leaked        int64                   `json:"leaked"`
-	PoolItems     int                     `json:"pool_items"`
-	WallMS        int64                   `json:"wall_ms"`
-	SchedHashAll  uint64                  `json:"sched_hash_all"` // determinism self-test: hash over every run's schedule and results
-	Aborted       string                  `json:"aborted,omitempty"`
-	SimNS         int64                   `json:"sim_ns"`
-	MaxProcs      int                     `json:"gomaxprocs"`
-	ShapeRuns     map[string]int64        `json:"shape_runs"`
-	TasksHist     map[int]int64           `json:"tasks_hist"`
+	Mode          string                 `json:"mode"`
+	Worker        int                    `json:"worker"`
+	Runs          int64                  `json:"runs"`
+	Calls         int64                  `json:"calls"`
+	Steps         int64                  `json:"steps"`
+	Switches      int64                  `json:"switches"`
+	Faults        simrt.Faults           `json:"faults"`
+	OverlapRuns   int64                  `json:"overlap_runs"`
+	NontrivRuns   int64                  `json:"nontrivial_runs"`
+	HistoryPairs  int64                  `json:"history_pairs"`
+	ColdOverlap   int64                  `json:"cold_overlap"`
+	PanicCalls    int64                  `json:"panic_calls"`
+	Violations    int64                  `json:"violations"`
+	RaceReports   int64                  `json:"race_reports"`
+	SiteHits      []uint32               `json:"site_hits,omitempty"`
+	SyncOps       map[string]int64       `json:"sync_ops"`
+	PolicyRuns    map[string]int64       `json:"policy_runs"`
+	GlobalsBefore uint64                 `json:"globals_before"`
+	GlobalsAfter  uint64                 `json:"globals_after"`
+	GlobalsDiff   []string               `json:"globals_changed,omitempty"`
+	Spawned       int64                  `json:"spawned"`
+	Leaked        int64                  `json:"leaked"`
+	PoolItems     int                    `json:"pool_items"`
+	WallMS        int64                  `json:"wall_ms"`
+	SchedHashAll  uint64                 `json:"sched_hash_all"` // determinism self-test: hash over every run's schedule and results
+	Aborted       string                 `json:"aborted,omitempty"`
+	SimNS         int64                  `json:"sim_ns"`
+	MaxProcs      int                    `json:"gomaxprocs"`
+	ShapeRuns     map[string]int64       `json:"shape_runs"`
+	TasksHist     map[int]int64          `json:"tasks_hist"`
 	extra         map[string]interface{} `json:"-"`
 }
 
@@ -419,7 +419,7 @@ func (w *worker) execRun(spec *simrt.RunSpec, exp [][]string, first bool) *simrt
 		nm := 0
 		for i := range res.Results {
 			for j, got := range res.Results[i] {
-				if want := exp[i][j]; got != want {
+				if want := exp[i][j]; got != want && want != "" {
 					nm++
 					if nm <= 3 {
 						c := spec.Tasks[i][j]
@@ -433,7 +433,7 @@ func (w *worker) execRun(spec *simrt.RunSpec, exp [][]string, first bool) *simrt
 	if w.ses.DumpExplicit {
 		w.o.emit("run", getER())
 	}
-	if w.samples < w.ses.Samples && (len(spec.Tasks) >= 2 || w.ses.Mode != "rand") && len(res.Trace.Segs) <= 40 {
+	if w.samples < w.ses.Samples && ((len(spec.Tasks) >= 2 && res.Faults.Preempt > 0) || w.ses.Mode != "rand") && len(res.Trace.Segs) <= 40 {
 		small := true
 		for _, t := range spec.Tasks {
 			for _, c := range t {
@@ -498,8 +498,18 @@ func (w *worker) modeSeqAll() {
 		w.sum.Steps += res.Steps
 		w.sum.Calls += int64(len(calls))
 		if res.RaceDelta > 0 {
+			// a single caller, nothing scheduled: only the library's own goroutines
+			// can race here (or the harness is visible to the detector; the driver
+			// tells the two apart by the report's stacks)
 			w.sum.RaceReports += int64(res.RaceDelta)
+			if w.sum.Violations < 3 {
+				w.sum.Violations++
+				exp := w.expected(spec)
+				w.o.emit("violation", &Violation{Kind: "race", RunIndex: w.runIdx, Seed: spec.Seed, Task: -1, Call: -1,
+					Detail: fmt.Sprintf("%d data race report(s) during a single-caller sequential pass", res.RaceDelta), Run: w.explicitOf(spec, res, exp)})
+			}
 		}
+		w.runIdx++
 		for k := 0; k < len(calls); k += 2 {
 			fmt.Fprintf(bw, "%s\t%d\t%s\t%d\n", common.B64(res.Results[0][k]), res.CallSteps[0][k], common.B64(res.Results[0][k+1]), res.CallSteps[0][k+1])
 		}
